@@ -35,6 +35,9 @@ var preludeForms = []string{
 	"(defmacro mspl2 (x &rest xs) (quasiquote (list (unquote x) (+ 0 (unquote-splicing xs)))))",
 	"(defun rec (n) (if (<= n 0) (car 5) (+ 1 (rec (- n 1)))))",
 	"(defun tailrec (n) (if (<= n 0) (car 5) (tailrec (- n 1))))",
+	// a tail loop that only fails when it is entered with -1: called as a callback, an EARLIER invocation loops
+	// (frames are reused) and a LATER one fails
+	"(defun tailwalk (n) (if (<= n 0) (if (= n -1) (car 5) 0) (tailwalk (- n 1))))",
 }
 
 type leaf struct {
@@ -65,6 +68,9 @@ var leaves = []leaf{
 	{"macro-splice-template-form", "(msplerr 1 2)", false},
 	{"non-tail-recursion", "(rec 2)", true},
 	{"tail-recursion", "(tailrec 2)", true},
+	{"callback-after-tail-loop-map", "(map 'list tailwalk '(2 -1))", true},
+	{"callback-after-tail-loop-foldl", "(foldl (lambda (a x) (tailwalk x)) 0 '(3 2 -1))", true},
+	{"callback-after-tail-loop-map-lambda", "(map 'list (lambda (x) (+ 1 (tailwalk x))) '(2 -1))", true},
 }
 
 type ctx struct{ id, tpl string }
